@@ -54,11 +54,11 @@ GROUPS = [
       defines={'VF_TAPE_MAX': 28, 'VF_WTAPE_MAX': 28, 'VF_TYPE_LO': 0, 'VF_TYPE_HI': 1},
       enforce='oasis_read_real_by_type', replace=['oasis_read_unsigned_integer', 'oasis_read', 'little_endian_swap32', 'little_endian_swap64'],
       replace_extern=['fputs']),
-    G('real_read_recip', roots=['gdstk::oasis_read_real_by_type'], entry='h_real_read',
+    G('real_read_recip', uf_fdiv=True, roots=['gdstk::oasis_read_real_by_type'], entry='h_real_read',
       defines={'VF_TAPE_MAX': 28, 'VF_WTAPE_MAX': 28, 'VF_TYPE_LO': 2, 'VF_TYPE_HI': 3},
       enforce='oasis_read_real_by_type', replace=['oasis_read_unsigned_integer', 'oasis_read', 'little_endian_swap32', 'little_endian_swap64'],
       replace_extern=['fputs']),
-    G('real_read_ratio', roots=['gdstk::oasis_read_real_by_type'], entry='h_real_read',
+    G('real_read_ratio', uf_fdiv=True, roots=['gdstk::oasis_read_real_by_type'], entry='h_real_read',
       defines={'VF_TAPE_MAX': 28, 'VF_WTAPE_MAX': 28, 'VF_TYPE_LO': 4, 'VF_TYPE_HI': 5},
       enforce='oasis_read_real_by_type', replace=['oasis_read_unsigned_integer', 'oasis_read', 'little_endian_swap32', 'little_endian_swap64'],
       replace_extern=['fputs']),
@@ -70,7 +70,7 @@ GROUPS = [
       defines={'VF_TAPE_MAX': 28, 'VF_WTAPE_MAX': 28, 'VF_TYPE_LO': 8, 'VF_TYPE_HI': 255},
       enforce='oasis_read_real_by_type', replace=['oasis_read_unsigned_integer', 'oasis_read', 'little_endian_swap32', 'little_endian_swap64'],
       replace_extern=['fputs']),
-    G('real_write', extra_checks=['--conversion-check'], defines={'VF_TAPE_MAX': 28, 'VF_WTAPE_MAX': 28}, roots=['gdstk::oasis_write_real'], entry='h_real_write',
+    G('real_write', uf_fdiv=True, extra_checks=['--conversion-check'], defines={'VF_TAPE_MAX': 28, 'VF_WTAPE_MAX': 28}, roots=['gdstk::oasis_write_real'], entry='h_real_write',
       enforce='oasis_write_real', replace=['oasis_write_unsigned_integer', 'oasis_write', 'oasis_putc', 'little_endian_swap64']),
     # byte order (src/utils.cpp): arrays of any length, loop invariants
 ] + [
